@@ -19,8 +19,11 @@ Proved in full:   Laplace with optional δ (also truncated / folded, by post-pro
 Partial (`…_partial`, full statement kept as `def …_full : Prop`):
                   bounded-domain Laplace: what is left of `bounded_domain_dp_full` is exactly the side of the root on
                   which the returned bracket midpoint falls (`bounded_domain_dp_full_of_private_side`);
-                  analytic Gaussian (Balle–Wang Thm 8 turns "objective ≤ 0" into (ε, δ)-DP, and the midpoint's side) and
-                  discrete Gaussian (Canonne–Kamath–Steinke Thm 7): cited hypotheses, never axioms.
+                  analytic Gaussian: Balle–Wang Thm 8 (sufficiency) is now PROVED for the normal law
+                  (`gauss_dp_of_balleWang`); what is left of `analytic_gauss_dp_full` is the midpoint's side of the root
+                  (`analytic_gauss_dp_of_private_side`), for the true erfc;
+                  discrete Gaussian (Canonne–Kamath–Steinke Thm 7) and snapping (Mironov Thm 1): cited hypotheses,
+                  never axioms.
 Not provable even in exact arithmetic: that a bracket MIDPOINT (bounded-domain, analytic Gaussian) lies on the private
 side of the root — it is within half a (tiny) bracket of it; checked numerically on every run.
 -/
@@ -37,6 +40,7 @@ import DPL.Proofs.ContinuousBoundedDomainDP
 import DPL.Proofs.ContinuousGaussTail
 import DPL.Proofs.ContinuousGaussErfc
 import DPL.Proofs.ContinuousGaussDP
+import DPL.Proofs.ContinuousGaussBW
 
 namespace DPL.C02
 open DPL DPL.Cont MeasureTheory ProbabilityTheory
@@ -393,8 +397,9 @@ theorem analytic_gauss_scale_eq (eps delta sens : ℝ) (h : sens / eps ≠ 0) :
   unfold analyticGaussScale agSigma
   simp only [feq_real, h, decide_false, Bool.false_eq_true, if_false, transc_sqrt]
 
-/-- the full statement for the analytic Gaussian: not proved — needs Balle–Wang Thm 8 (a cited fact about the normal
-cdf) AND the side of the root on which the midpoint falls (decided numerically on every run) -/
+/-- the full statement for the analytic Gaussian: not proved — it is the side of the root on which the midpoint falls
+(decided numerically on every run).  That it implies (ε, δ)-DP for the normal law (Balle–Wang Thm 8) is proved:
+`gauss_dp_of_balleWang`, `analytic_gauss_dp_of_private_side`. -/
 def analytic_gauss_dp_full : Prop :=
   ∀ (eps delta sens : ℝ), 0 < eps → 0 < delta → delta < 1 → 0 < sens →
     balleWang eps delta sens (analyticGaussScale eps delta sens).scale ≤ 0
@@ -454,6 +459,36 @@ theorem gauss_classical_dp (eps delta sens x x' : ℝ) (he : 0 < eps) (he1 : eps
 /-- non-vacuity of the hypotheses of `gauss_classical_dp` (ε = 1, δ = 1/2, Δ = 1), and `sqNN σ` is `σ²` -/
 example : (0:ℝ) < 1 ∧ (1:ℝ) ≤ 1 ∧ (0:ℝ) < 1/2 ∧ (1/2:ℝ) < 1 ∧ |(0:ℝ) - 1| ≤ 1 := by norm_num
 example (σ : ℝ) : ((sqNN σ : NNReal) : ℝ) = σ ^ 2 := rfl
+
+/-- **Balle–Wang Thm 8, sufficiency — proved for the normal law** (it was a cited hypothesis): for ANY `σ > 0`, if
+Balle–Wang's expression with the true normal cdf at distance `Δ = sens` is `≤ 0`, then `N(x, σ²)` is (ε, δ)-DP with
+respect to `N(x', σ²)` for all centres at most `sens` apart and every measurable output set.
+Proof (`ContinuousGaussBW`): the hockey-stick inequality with the half-line `{p_x > e^ε p_x'}`, its two tails are
+`Φ(d/2σ - εσ/d)` and `Φ(-d/2σ - εσ/d)` at the actual distance `d`, and `d ↦ Φ(d/2σ - εσ/d) - e^ε Φ(-d/2σ - εσ/d)` is
+monotone (its derivative is `φ(d/2σ - εσ/d)/σ > 0`, from `Φ' = φ`). -/
+theorem gauss_dp_of_balleWang (eps delta sens σ x x' : ℝ) (he : 0 ≤ eps) (hσ : 0 < σ) (hs : 0 < sens)
+    (hd : 0 ≤ delta) (hbw : @balleWang trueErf eps delta sens σ ≤ 0) (hx : |x - x'| ≤ sens)
+    (S : Set ℝ) (hS : MeasurableSet S) :
+    gaussianReal x (sqNN σ) S ≤ ENNReal.ofReal (Real.exp eps) * gaussianReal x' (sqNN σ) S + ENNReal.ofReal delta :=
+  gaussianReal_dp_of_balleWang eps delta sens σ x x' he hσ hs hd hbw hx S hS
+
+section trueGauss
+attribute [local instance] trueErf
+
+/-- **analytic Gaussian: what is left is exactly the side of the root.**  With the true `erfc` as the carrier's `erfc`:
+if the scale `GaussianAnalytic._find_scale` returns (the model's `analyticGaussScale`) is positive and Balle–Wang's
+expression at it is `≤ 0` — the conclusion of `analytic_gauss_dp_full`, i.e. the returned bracket midpoint lies on the
+private side of the root — then the mechanism's law `N(x, scale²)` is (ε, δ)-DP on every measurable set. -/
+theorem analytic_gauss_dp_of_private_side (eps delta sens x x' : ℝ) (he : 0 < eps) (hd : 0 < delta) (hs : 0 < sens)
+    (hσ : 0 < (analyticGaussScale eps delta sens).scale)
+    (hside : balleWang eps delta sens (analyticGaussScale eps delta sens).scale ≤ 0)
+    (hx : |x - x'| ≤ sens) (S : Set ℝ) (hS : MeasurableSet S) :
+    gaussianReal x (sqNN (analyticGaussScale eps delta sens).scale) S ≤
+      ENNReal.ofReal (Real.exp eps) * gaussianReal x' (sqNN (analyticGaussScale eps delta sens).scale) S
+        + ENNReal.ofReal delta :=
+  gaussianReal_dp_of_balleWang eps delta sens _ x x' he.le hσ hs hd.le hside hx S hS
+
+end trueGauss
 
 /-- **discrete Gaussian objective** = partial sums of the discrete hockey-stick expression: after `n` passes,
 `lhs = Σ_{|k| ≤ n, k > idx₀} w_k`, `rhs = Σ_{1 ≤ k ≤ n, k > idx₁} w_k`, `denom = Σ_{|k| ≤ n} w_k` with
